@@ -90,6 +90,21 @@ CHECKS = {
         note=('In declaring blocks only syntax-breaking faults are injected (other edits can be valid declarations that break their '
               'users). A mutation that yields no error anywhere is not a fault and is skipped (counted). XML input only in this revision.'),
     ),
+    'C08': dict(
+        engine='oracle-server invariant predicate (harness/cpp/dump.h Dumper::invariants) + xmlmut enumeration + Hypothesis model generator with recovery-provoking mutations + libFuzzer targets with the predicate switched on (harness/py/prop_C08.py)',
+        technique='invariant checking over generated and fuzzed inputs: complete traversal of every produced Document (valid, with diagnostics, after an exception) by a predicate over public members; single-edit enumeration, model-level mutations that force error recovery, coverage-guided fuzzing with the predicate inside the target',
+        category='exploration',
+        text=('Every document that a parse leaves behind - after a normal return, after diagnostics, after an exception - is '
+              'traversed completely: user-data back pointers of variables (all scopes), functions, locations, branchpoints, '
+              'templates, instances and processes; one source and one target per edge inside its own template; dense numbering; '
+              'unbound-first parameter lists with matching type arity and exactly the bound parameters mapped; an own initial '
+              'location when the call was clean. Inputs: all single structural edits of four seed documents, generated models '
+              'clean and after one mutation that forces error recovery (duplicate names of every kind, dangling/foreign '
+              'references, bad instantiations, token faults), XML and XTA, and libFuzzer campaigns with the predicate inside.'),
+        design_ref='DESIGN.md 4/C08',
+        note=('Trusted: the predicate itself (dump.h) and the public accessors it reads. Crashes while building are C01\'s '
+              'subject and only counted. LSC templates are exempt from the initial-location clause.'),
+    ),
     'C18': dict(
         engine='rapidcheck + exhaustive loops (harness/cpp/c18.cpp)',
         technique='exhaustive enumeration over int8_t + rapidcheck property-based testing over int32_t/double against set semantics in wide arithmetic',
